@@ -461,12 +461,20 @@ pub enum SQ {
     DWmcReal(u16, Vec<u8>),
     DCountNodes(u16),
     DCondition(u16, u8, bool),
+    /// condition the negation of a top-down diagram through its owning store (the result is compared, not kept)
+    DConditionNeg(u16, u8, bool),
     DSemHash64(u16),
     DEvaluate(u16, u8),
     DWmcEu(u16, Vec<u8>),
     DMarginalMap(u16, u8, Vec<u8>),
     DMeu(u16, u8, Vec<u8>),
     DBbReal(u16, u8, Vec<u8>),
+}
+
+thread_local! {
+    /// owner (standard store?) of the diagram the last DCondition produced, read by `absorb`
+    #[allow(non_upper_case_globals)]
+    static extra_d_owner: std::cell::Cell<bool> = const { std::cell::Cell::new(true) };
 }
 
 fn sq_produces_diagram(q: &SQ) -> bool {
@@ -486,6 +494,7 @@ pub struct SddQueries;
 struct World<'a> {
     sb: &'a CompressionSddBuilder<'a>,
     db: &'a StandardDecisionNNFBuilder<'a>,
+    xb: &'a SemStore<'a>,
     pool: Vec<(SddPtr<'a>, Tt)>,
     /// top-down diagrams: [standard store, semantic store (64-bit field), conditioned results...]
     ds: Vec<(BddPtr<'a>, bool)>,
@@ -512,6 +521,7 @@ fn build_world<'a>(
     World {
         sb,
         db,
+        xb,
         pool: run.pool,
         ds: vec![(d, true), (d2, false)],
         n: shape.leaves().len(),
@@ -613,14 +623,28 @@ fn sdd_answer<'a>(w: &World<'a>, q: &SQ, extra_s: &mut Vec<SddPtr<'a>>, extra_d:
                 return Ans::N(0);
             }
             let v = ((*v as usize) * w.dn) >> 8;
-            // conditioning goes through the builder that owns the diagram; diagrams of the semantic store are
-            // only queried, not conditioned here (C06 conditions them)
+            // conditioning goes through the builder that owns the diagram (standard store or hash-identified store)
             let (d, std_owned) = w.ds[pick(*k, w.ds.len())];
-            if !std_owned {
-                return Ans::N(1);
-            }
-            let r = w.db.condition(d, VarLabel::new_usize(v), *val);
+            let r = if std_owned {
+                w.db.condition(d, VarLabel::new_usize(v), *val)
+            } else {
+                rsdd::builder::TopDownBuilder::condition(w.xb, d, VarLabel::new_usize(v), *val)
+            };
+            extra_d_owner.with(|o| o.set(std_owned));
             extra_d.push(r);
+            Ans::Diagram(bdd_tt(r), 0.0)
+        }
+        SQ::DConditionNeg(k, v, val) => {
+            if w.dn == 0 {
+                return Ans::N(0);
+            }
+            let v = ((*v as usize) * w.dn) >> 8;
+            let (d, std_owned) = w.ds[pick(*k, w.ds.len())];
+            let r = if std_owned {
+                w.db.condition(d.neg(), VarLabel::new_usize(v), *val)
+            } else {
+                rsdd::builder::TopDownBuilder::condition(w.xb, d.neg(), VarLabel::new_usize(v), *val)
+            };
             Ans::Diagram(bdd_tt(r), 0.0)
         }
     }
@@ -640,7 +664,7 @@ fn absorb<'a>(w: &mut World<'a>, es: Vec<SddPtr<'a>>, ed: Vec<BddPtr<'a>>) {
         w.pool.push((r, sdd_tt(r)));
     }
     for r in ed {
-        w.ds.push((r, true));
+        w.ds.push((r, extra_d_owner.with(|o| o.get())));
     }
 }
 
@@ -653,7 +677,7 @@ impl SQ {
             SQ::SemHash32(i) | SQ::SemHash64Map(i, _) => (Some(*i), None),
             SQ::DSemHash32(k) | SQ::DSemHash64Map(k, _) => (None, Some(*k)),
             SQ::DWmcReal(k, _) | SQ::DWmcEu(k, _) | SQ::DCountNodes(k) | SQ::DSemHash64(k) | SQ::DEvaluate(k, _) => (None, Some(*k)),
-            SQ::DMarginalMap(k, _, _) | SQ::DMeu(k, _, _) | SQ::DBbReal(k, _, _) | SQ::DCondition(k, _, _) => (None, Some(*k)),
+            SQ::DMarginalMap(k, _, _) | SQ::DMeu(k, _, _) | SQ::DBbReal(k, _, _) | SQ::DCondition(k, _, _) | SQ::DConditionNeg(k, _, _) => (None, Some(*k)),
         }
     }
 }
@@ -672,9 +696,10 @@ fn fresh_sdd_answer(case: &SddCase, dn: usize, q: &SQ, prior: &[SQ]) -> Ans {
         match pq {
             SQ::Condition(..) | SQ::Exists(..) => made_s.push(k),
             SQ::DCondition(t, _, _) => {
-                if dn > 0 && std_owned[pick(*t, std_owned.len())] {
+                if dn > 0 {
                     made_d.push(k);
-                    std_owned.push(true);
+                    let o = std_owned[pick(*t, std_owned.len())];
+                    std_owned.push(o);
                 }
             }
             _ => {}
@@ -717,8 +742,8 @@ fn fresh_sdd_answer(case: &SddCase, dn: usize, q: &SQ, prior: &[SQ]) -> Ans {
             absorb(&mut w2, es, ed);
         } else if made_s.contains(&k) {
             w2.pool.push((SddPtr::PtrTrue, Tt::TRUE));
-        } else if made_d.contains(&k) {
-            w2.ds.push((BddPtr::PtrTrue, true));
+        } else if let Some(j) = made_d.iter().position(|p| *p == k) {
+            w2.ds.push((BddPtr::PtrTrue, std_owned[base_d + j]));
         }
     }
     sdd_answer(&w2, q, &mut Vec::new(), &mut Vec::new())
@@ -804,6 +829,7 @@ fn sq_strategy() -> BoxedStrategy<SQ> {
         1 => (i(), sel_strategy()).prop_map(|(k, s)| SQ::DWmcEu(k, s)),
         2 => i().prop_map(SQ::DCountNodes),
         2 => (i(), any::<u8>(), any::<bool>()).prop_map(|(k, v, b)| SQ::DCondition(k, v, b)),
+        1 => (i(), any::<u8>(), any::<bool>()).prop_map(|(k, v, b)| SQ::DConditionNeg(k, v, b)),
         1 => i().prop_map(SQ::DSemHash64),
         1 => (i(), any::<u8>()).prop_map(|(k, b)| SQ::DEvaluate(k, b)),
         1 => (i(), any::<u8>(), sel_strategy()).prop_map(|(k, m, s)| SQ::DMarginalMap(k, m, s)),
@@ -816,7 +842,7 @@ fn sq_strategy() -> BoxedStrategy<SQ> {
 impl SubCheckT for SddQueries {
     type Case = SddCase;
     const NAME: &'static str = "sdd_ddnnf_queries";
-    const RULE: &'static str = "an SDD pool (compressing builder, random vtree over <=5 variables, <=20 ops) and a top-down compiled d-DNNF of a random CNF, compiled with the standard and the hash-identified store, then <=20 queries (SDD: counts in seven semirings, count_nodes, semantic_hash, evaluate, condition, exists; top-down: real / expected-utility counts, count_nodes, semantic_hash, evaluate, marginal_map, meu, bb, condition) with repetitions, diagrams produced by condition / exists joining the pools and being queried in turn: every answer equals the same single query on freshly built copies, and no reachable node keeps scratch data after any call. Non-trivial: >=2 kinds of query and a repeated query";
+    const RULE: &'static str = "an SDD pool (compressing builder, random vtree over <=5 variables, <=20 ops) and a top-down compiled d-DNNF of a random CNF, compiled with the standard and the hash-identified store, then <=20 queries (SDD: counts in seven semirings, count_nodes, semantic_hash, evaluate, condition, exists; top-down: real / expected-utility counts, count_nodes, semantic_hash, evaluate, marginal_map, meu, bb, condition of a diagram and of its negation through the owning store) with repetitions, diagrams produced by condition / exists joining the pools and being queried in turn: every answer equals the same single query on freshly built copies, and no reachable node keeps scratch data after any call. Non-trivial: >=2 kinds of query and a repeated query";
     fn cases(tier: Tier) -> u32 {
         tier.pick(1200, 40_000)
     }
@@ -825,17 +851,29 @@ impl SubCheckT for SddQueries {
             vtree_case_strategy(5, false),
             proptest::collection::vec(sop_strategy(true, false), 0..=20),
             sat_cnf_strategy(),
-            (proptest::collection::vec(sq_strategy(), 1..=16), proptest::collection::vec((any::<u16>(), any::<u16>()), 0..=5)).prop_map(
-                |(mut qs, reps)| {
+            (
+                proptest::collection::vec(sq_strategy(), 1..=16),
+                proptest::collection::vec((any::<u16>(), any::<u16>()), 0..=5),
+                proptest::collection::vec((any::<u16>(), any::<bool>()), 0..=2),
+            )
+                .prop_map(|(mut qs, reps, companions)| {
                     for (from, at) in reps {
                         let f = pick(from, qs.len());
                         let q = qs[f].clone();
                         let a = pick(at, qs.len() + 1);
                         qs.insert(a, q);
                     }
+                    // the same conditioning asked of a diagram and of its negation, next to each other
+                    for (from, before) in companions {
+                        let start = pick(from, qs.len());
+                        if let Some(p) = (start..qs.len()).chain(0..start).find(|p| matches!(qs[*p], SQ::DCondition(..))) {
+                            if let SQ::DCondition(k, v, b) = qs[p].clone() {
+                                qs.insert(if before { p } else { p + 1 }, SQ::DConditionNeg(k, v, b));
+                            }
+                        }
+                    }
                     qs
-                },
-            ),
+                }),
         )
             .prop_map(|(vt, ops, cnf, queries)| SddCase { vt, ops, cnf, queries })
             .boxed()
